@@ -26,6 +26,7 @@ import (
 
 	chain "github.com/comdex-official/comdex/app"
 	"github.com/comdex-official/comdex/app/wasm/bindings"
+	esmtypes "github.com/comdex-official/comdex/x/esm/types"
 	"github.com/comdex-official/comdex/x/liquidity"
 	liqtypes "github.com/comdex-official/comdex/x/liquidity/types"
 	lockertypes "github.com/comdex-official/comdex/x/locker/types"
@@ -133,6 +134,16 @@ func c19Base(t *testing.T, a *chain.App, ctx sdk.Context) *c19Fix {
 	if _, err := a.LockerKeeper.AddWhiteListedAsset(ctx, &lockertypes.MsgAddWhiteListedAssetRequest{From: lp.String(), AppId: fx.appH, AssetId: fx.asset["ucmst"]}); err != nil {
 		t.Fatalf("c19 base: AddWhiteListedAsset: %v", err)
 	}
+	// a second app with the same locker asset (nobody opens a locker there): locker programs of two apps, so that
+	// the kill switch of one app makes DistributeExtRewardLocker return its error AFTER programs of the other were paid
+	if err := a.CollectorKeeper.WasmSetCollectorLookupTable(ctx, &bindings.MsgSetCollectorLookupTable{AppID: fx.appV, CollectorAssetID: fx.asset["ucmst"],
+		SecondaryAssetID: fx.asset["uharbor"], SurplusThreshold: sdk.NewInt(10000000), DebtThreshold: sdk.NewInt(5000000), LockerSavingRate: sdk.ZeroDec(),
+		LotSize: sdk.NewInt(2000000), BidFactor: sdk.NewDecWithPrec(1, 2), DebtLotSize: sdk.NewInt(2000000)}); err != nil {
+		t.Fatalf("c19 base: collector lookup (second app): %v", err)
+	}
+	if _, err := a.LockerKeeper.AddWhiteListedAsset(ctx, &lockertypes.MsgAddWhiteListedAssetRequest{From: lp.String(), AppId: fx.appV, AssetId: fx.asset["ucmst"]}); err != nil {
+		t.Fatalf("c19 base: AddWhiteListedAsset (second app): %v", err)
+	}
 	// vaults: appV has exactly one extended pair (ActExternalRewardsVaults accepts only that)
 	setPrice(a, ctx, fx.asset["ucmdx"], 2000000, true)
 	setPrice(a, ctx, fx.asset["ucmst"], 1000000, true)
@@ -155,6 +166,17 @@ func (w *c19World) acct(bech string) int {
 }
 
 func (w *c19World) poolDenom(pid uint64) string { return liqtypes.PoolCoinDenom(w.fx.appL, pid) }
+
+// the kill switch of an app (what the admin's MsgKillRequest stores)
+func (w *c19World) halted(app uint64) bool {
+	p, _ := w.a.EsmKeeper.GetKillSwitchData(w.ctx, app)
+	return p.BreakerEnable
+}
+
+func (w *c19World) opHalt(app uint64, on bool) {
+	err := w.a.EsmKeeper.SetKillSwitchData(w.ctx, esmtypes.KillSwitchParams{AppId: app, BreakerEnable: on})
+	w.tr.p("env killswitch %d %s %s", app, b2s(on), b2s(err == nil))
+}
 
 // ---------- observation ----------
 func (w *c19World) st() {
@@ -338,6 +360,9 @@ func (w *c19World) opBegin(dt int64) {
 		var sb strings.Builder
 		if x.kind == 0 {
 			v := k.GetExternalRewardsLocker(w.ctx, x.id)
+			if w.halted(v.AppMappingId) {
+				w.tr.p("halt %d 1", i)
+			}
 			lk, _ := w.a.LockerKeeper.GetLockerLookupTable(w.ctx, v.AppMappingId, v.AssetId)
 			n := 0
 			for _, id := range lk.LockerIds {
@@ -354,13 +379,20 @@ func (w *c19World) opBegin(dt int64) {
 			}
 			w.tr.p("xenv %d %s %d%s", i, tot, n, sb.String())
 		} else if x.kind == 2 {
-			w.tr.p("lenv %d %s", i, w.lendEnv(k.GetExternalRewardLend(w.ctx, x.id)))
+			lv := k.GetExternalRewardLend(w.ctx, x.id)
+			if w.halted(lv.AppMappingId) {
+				w.tr.p("halt %d 1", i)
+			}
+			w.tr.p("lenv %d %s", i, w.lendEnv(lv))
 		} else {
 			var v rewardstypes.VaultExternalRewards
 			for _, y := range k.GetExternalRewardVaults(w.ctx) {
 				if y.Id == x.id {
 					v = y
 				}
+			}
+			if w.halted(v.AppMappingId) {
+				w.tr.p("halt %d 1", i)
 			}
 			md, _ := w.a.VaultKeeper.GetAppExtendedPairVaultMappingData(w.ctx, v.AppMappingId, v.ExtendedPairId)
 			n := 0
@@ -482,7 +514,7 @@ func (w *c19World) opCreateGauge(s c19GaugeSpec) {
 	w.st()
 }
 
-func (w *c19World) opExtCreate(kind int, denom string, total sdk.Int, days, minlock int64, creator int, short, badTarget bool) {
+func (w *c19World) opExtCreate(kind int, denom string, total sdk.Int, days, minlock int64, creator int, short, badTarget bool, altApp ...bool) {
 	cr := addrN(creator)
 	have := bal(w.a, w.ctx, cr, denom)
 	want := total
@@ -502,8 +534,18 @@ func (w *c19World) opExtCreate(kind int, denom string, total sdk.Int, days, minl
 		if badTarget {
 			as = w.fx.asset["uatom"] // not a locker asset of appH
 		}
-		msg = rewardstypes.NewMsgActivateExternalRewardsLockers(w.fx.appH, as, sdk.Coin{Denom: denom, Amount: total}, days, minlock, cr)
+		app := w.fx.appH
+		if len(altApp) > 0 && altApp[0] {
+			app = w.fx.appV // the second app with this locker asset
+		}
+		if w.halted(app) {
+			ok = false
+		}
+		msg = rewardstypes.NewMsgActivateExternalRewardsLockers(app, as, sdk.Coin{Denom: denom, Amount: total}, days, minlock, cr)
 	} else {
+		if w.halted(w.fx.appV) {
+			ok = false
+		}
 		ep := w.fx.extPair
 		if badTarget {
 			ep = 77
@@ -614,6 +656,19 @@ func c19Deposit(g *rng, total uint64) sdk.Int {
 		return sdk.NewIntFromUint64(1 << 63).SubRaw(int64(g.intn(2)))
 	case 10:
 		return sdk.NewInt(int64(1 + g.intn(40)))
+	case 11, 12:
+		// an 18-decimals token: allocations between 2^53 and 2^63, where binary64 has a spacing of 2 .. 1024
+		// and the float-based share of a farmer can be rounded above the allocation
+		switch g.intn(4) {
+		case 0:
+			return sdk.NewIntFromUint64(1 << uint(53+g.intn(10))).MulRaw(int64(total)).AddRaw(int64(1 + g.intn(1000)))
+		case 1:
+			return sdkmath.NewIntWithDecimal(int64(1+g.intn(9000)), 15).AddRaw(int64(g.intn(100000)))
+		case 2:
+			return sdkmath.NewIntWithDecimal(int64(1+g.intn(900)), 16).MulRaw(int64(total)).AddRaw(int64(1 + 2*g.intn(500)))
+		default:
+			return sdk.NewIntFromUint64(g.next()>>uint(1+g.intn(10)) | 1)
+		}
 	default:
 		return sdk.NewInt(int64(1+g.intn(100000)) * g.pickI(1, 1000, 1000000, 1000000000))
 	}
@@ -698,6 +753,9 @@ func (w *c19World) genEnvOp(g *rng) {
 	case 9:
 		if g.chance(30) {
 			w.opRangedPool()
+		} else if g.chance(40) {
+			// the admin turns the kill switch of one of the programs' apps on (usually) or off
+			w.opHalt([]uint64{w.fx.appH, w.fx.appV}[g.intn(2)], g.chance(60))
 		}
 	}
 }
@@ -720,7 +778,7 @@ func (w *c19World) genExt(g *rng) {
 	}
 	days := g.pickI(1, 1, 2, 3, 7)
 	minlock := g.pickI(1, 3600, 86400, 200000)
-	w.opExtCreate(kind, denom, total, days, minlock, 81, g.chance(5), g.chance(6))
+	w.opExtCreate(kind, denom, total, days, minlock, 81, g.chance(5), g.chance(6), g.chance(30))
 }
 
 func c19Dt(g *rng) int64 {
@@ -850,6 +908,40 @@ func c19ExtRounding(w *c19World, g *rng) {
 }
 
 
+// directed (the input of fix b2d3331): locker programs on two apps and a vault program; the kill switch of the app of
+// the LATER locker program is turned on: DistributeExtRewardLocker pays the first program and then returns
+// ErrCircuitBreakerEnabled - the whole locker step must be rolled back (nothing paid, records and epochs of the
+// programs untouched) while the epoch bookkeeping, the gauges and the vault step go on; switched off again it resumes
+func c19HookErr(w *c19World, g *rng) {
+	w.opPrice("ucmst", 1000000, true)
+	w.opPrice("ucmdx", 2000000, true)
+	for i := 0; i < 1+g.intn(3); i++ {
+		w.opLocker(11+i, sdk.NewInt(int64(1+g.intn(1000))*1000000))
+	}
+	in := sdk.NewInt(int64(100+g.intn(900)) * 1000000)
+	w.opVault(21, in, in.QuoRaw(4))
+	w.opFarm(1, w.fx.pools[0], sdk.NewInt(int64(1000+g.intn(1000000))))
+	w.opCreateGauge(c19GaugeSpec{denom: "uharbor", dep: sdk.NewInt(int64(1000 + g.intn(100000))), total: 5, durS: 43200, app: w.fx.appL, pool: w.fx.pools[0], creator: 80})
+	days := g.pickI(2, 3, 5)
+	w.opExtCreate(0, "uharbor", sdk.NewInt(int64(1000+g.intn(5000000))), days, 1, 81, false, false)       // lockers of appH
+	w.opExtCreate(0, "uharbor", sdk.NewInt(int64(1+g.intn(1000))), days, 1, 81, false, false, true)        // created later, on appV
+	w.opExtCreate(1, []string{"uharbor", "ustake"}[g.intn(2)], sdk.NewInt(int64(1000+g.intn(100000))), days, 1, 81, false, false) // vaults of appV ...
+	which := w.fx.appV
+	if g.chance(30) {
+		which = w.fx.appH // ... or the FIRST program's app: the step fails before anything is paid
+	}
+	w.opBegin(6)
+	w.opBegin(43201)
+	w.opHalt(which, true)
+	for b := 0; b < 2+g.intn(2); b++ {
+		w.opBegin(g.pickI(43201, 86401))
+	}
+	w.opHalt(which, false)
+	for b := 0; b < 2+g.intn(3); b++ {
+		w.opBegin(g.pickI(43201, 86401, 90000))
+	}
+}
+
 // environment of one lend program: what DistributeExtRewardLend collects for it (iter.go 248-283),
 // recomputed with the keepers' exported functions
 func (w *c19World) lendEnv(v rewardstypes.LendExternalRewards) string {
@@ -910,7 +1002,7 @@ func (w *c19World) opLendCreate(cw *c12World, denom string, total sdk.Int, days 
 		pool = 77
 	}
 	_, assetOK := w.a.AssetKeeper.GetAssetForDenom(w.ctx, denom)
-	ok := !badPool && assetOK
+	ok := !badPool && assetOK && !w.halted(cw.LendApp)
 	idBefore := w.a.Rewardskeeper.GetExternalRewardsLendID(w.ctx)
 	msg := rewardstypes.NewMsgActivateExternalRewardsLend(cw.LendApp, pool, []uint64{cw.CMST}, cw.LiqApp, 0, sdk.Coin{Denom: denom, Amount: total},
 		int64(cw.LiqPool), days, 1, cr)
@@ -974,6 +1066,10 @@ func TestC19Lend(t *testing.T) {
 				setPrice(a, w.ctx, ids[d], pr, g.chance(90))
 				w.tr.p("env price %d %d 1", c19DenomCode(d), pr)
 			}
+			if g.chance(12) {
+				// the lend app's kill switch: DistributeExtRewardLend returns its error, the step is rolled back
+				w.opHalt(cw.LendApp, !w.halted(cw.LendApp))
+			}
 			w.opBegin(g.pickI(6, 3600, 84601, 86401, 86401, 90000, 200000))
 		}
 	}
@@ -1004,6 +1100,9 @@ func TestC19(t *testing.T) {
 		case ci%10 == 3:
 			w.header(ci, "extround")
 			c19ExtRounding(w, g)
+		case ci%10 == 4:
+			w.header(ci, "hookerr")
+			c19HookErr(w, g)
 		default:
 			w.header(ci, "random")
 			c19Random(w, g)
